@@ -44,6 +44,18 @@ func (e StdEng) RepeatReuse(t Tensor, reuse Tensor, axis int, repeats ...int) (T
 		if !reuse.Shape().Eq(newShape) {
 			return nil, errors.Errorf("Reuse shape is %v. Expected shape is %v", reuse.Shape(), newShape)
 		}
+		if !storedRowMajor(rr) {
+			// the result is written block by block in row-major order. A reuse tensor that is stored in any
+			// other way gets it element by element from a temporary
+			tmp := recycledDense(t.Dtype(), newShape, WithEngine(StdEng{}))
+			if _, err = e.denseRepeat(tt, tmp, newShape, newAxis, size, newRepeats); err != nil {
+				return nil, err
+			}
+			if _, err = copyDenseIter(rr, tmp, nil, nil); err != nil {
+				return nil, errors.Wrap(err, "Unable to copy the result of Repeat into the reuse tensor")
+			}
+			return rr, nil
+		}
 		return e.denseRepeat(tt, rr, newShape, newAxis, size, newRepeats)
 	default:
 		return nil, errors.Errorf("NYI")
